@@ -1,5 +1,6 @@
 import LyModel.Iff.Model
 import LyModel.Iff.Range
+import LyModel.Generated.IffSrc
 /-! driver ops of component `iff` (if-feature compiler/evaluator and range/length restrictions) -/
 namespace LyModel.Iff.Drv
 open LyModel LyModel.Iff
@@ -17,6 +18,10 @@ def parseEnv (b : Bytes) : List (Bytes × List Bytes) :=
     match splitOn 0x3d m with
     | [p, fs] => some (p, (splitOn 0x2c fs).filter (!·.isEmpty))
     | _ => none
+
+/-- the variant of the model that corresponds to the source tree the translator has just read -/
+def fx : Fix := { f3 := Generated.IFF_FIX_F3, f13 := Generated.IFF_FIX_F13 }
+def rfx : Range.RFix := { f30 := Generated.RANGE_FIX_F30, f51 := Generated.RANGE_FIX_F51 }
 
 def digitChar (n : Nat) : Char := Char.ofNat (48 + n)
 
@@ -45,7 +50,7 @@ def handle (op : String) (args : List String) : String :=
   | "iffcompile", [ver, envh, exprh] =>
     match Hex.dec envh, Hex.dec exprh with
     | some env, some e =>
-      match compile (lookupIn (parseEnv env)) (ver == "11") e with
+      match compile fx (lookupIn (parseEnv env)) (ver == "11") e with
       | .ok k => showCompiled k
       | .error er => "err " ++ er.name
     | _, _ => "err BadHex"
@@ -53,7 +58,7 @@ def handle (op : String) (args : List String) : String :=
     match Hex.dec envh, decAll exprs with
     | some env, some es =>
       let lk := lookupIn (parseEnv env)
-      let rs := es.map fun e => evalIffeatures lk (ver == "11") (bitsEnv bits) [e]
+      let rs := es.map fun e => evalIffeatures fx lk (ver == "11") (bitsEnv bits) [e]
       match rs.find? (fun r => match r with | .error _ => true | .ok _ => false) with
       | some (.error er) =>
         -- a crash anywhere kills the process; otherwise the module is rejected
@@ -65,7 +70,7 @@ def handle (op : String) (args : List String) : String :=
   | "range", ty :: fd :: rs =>
     match Range.typeOf ty (fd.toNat?.getD 0), decAll rs with
     | some t, some chain =>
-      match Range.compileChain t none 0 chain with
+      match Range.compileChain rfx t none 0 chain with
       | .ok (some ps) => "ok " ++ showParts ps
       | .ok none => "ok -"
       | .error (k, e) => "err " ++ toString k ++ " " ++ e.name
@@ -73,7 +78,7 @@ def handle (op : String) (args : List String) : String :=
   | "rangeval", ty :: fd :: vals :: rs =>
     match Range.typeOf ty (fd.toNat?.getD 0), decAll rs with
     | some t, some chain =>
-      match Range.compileChain t none 0 chain with
+      match Range.compileChain rfx t none 0 chain with
       | .ok ps =>
         let vs := (vals.splitOn ",").filterMap parseIntStr
         "ok " ++ String.ofList (vs.map fun v =>
